@@ -62,6 +62,9 @@ func runC18(c *core.Ctx) {
 			fmt.Sprintf("%d of %d writes into the metric tables use an index that was not claimed by an atomic increment: two registrations can share a slot", bad, nStores))
 	}
 
+	runR183(c)
+	runR184(c)
+
 	// ---- R18.2
 	lockKey := "T:" + core.Mod + "/metrics.hist.lock*"
 	datPrefix := "T:" + core.Mod + "/metrics.hist."
@@ -174,5 +177,110 @@ func runC18(c *core.Ctx) {
 			ex.Run(&lockState{})
 			c.Check(len(pb) == 0 && !ex.Exceeded, "R18.2", "metrics."+fn.Name()+"#lock-pairing", c.P.Pos(fn.Pos()), "every path releases the histogram lock exactly once", strings.Join(uniq(pb), "; "))
 		}
+	}
+}
+
+// runR183: the bucket index returned by the bucket function is provably inside the bucket array.
+func runR183(c *core.Ctx) {
+	c.Rule("R18.3", "the bucket index computed for an observation is provably below the number of buckets on every return path (an index one past the end panics in the observer, loses the observation and leaves the histogram lock held)", 1)
+	n, ok := namedConst(c, "metrics", "numAtlasBuckets")
+	fn := c.P.Func("metrics", "getBucket")
+	key := "metrics.getBucket#index-in-range"
+	if !ok || fn == nil {
+		c.Undecided("R18.3", key, "-", "bucket function or bucket count not found")
+		return
+	}
+	var bad []string
+	for _, r := range ssax.Returns(fn) {
+		v := ssax.Unwrap(r.Results[0])
+		ub, known := upperBound(v, r.Block(), 0)
+		if !known {
+			bad = append(bad, fmt.Sprintf("no upper bound established for the value returned at %s", c.P.Pos(r.Pos())))
+		} else if ub > n-1 {
+			bad = append(bad, fmt.Sprintf("the value returned at %s can be as large as %d, the last bucket is %d", c.P.Pos(r.Pos()), ub, n-1))
+		}
+	}
+	c.Check(len(bad) == 0, "R18.3", key, c.P.Pos(fn.Pos()), fmt.Sprintf("every return is bounded by %d", n-1), strings.Join(bad, "; "))
+}
+
+// upperBound derives v <= K from constants, "+ const" and the comparisons that dominate block b.
+func upperBound(v ssa.Value, b *ssa.BasicBlock, depth int) (int64, bool) {
+	if depth > 6 {
+		return 0, false
+	}
+	v = ssax.Unwrap(v)
+	if k, ok := ssax.ConstInt(v); ok {
+		return k, true
+	}
+	for _, ec := range ssax.DomConds(b) {
+		bo, ok := ec.Cond.(*ssa.BinOp)
+		if !ok {
+			continue
+		}
+		k, isC := ssax.ConstInt(bo.Y)
+		if !isC || ssax.Unwrap(bo.X) != v {
+			continue
+		}
+		op := bo.Op
+		if !ec.True {
+			switch op {
+			case token.GEQ:
+				op = token.LSS
+			case token.GTR:
+				op = token.LEQ
+			case token.LSS:
+				op = token.GEQ
+			case token.LEQ:
+				op = token.GTR
+			}
+		}
+		switch op {
+		case token.LSS:
+			return k - 1, true
+		case token.LEQ:
+			return k, true
+		}
+	}
+	if bo, ok := v.(*ssa.BinOp); ok && bo.Op == token.ADD {
+		if k, isC := ssax.ConstInt(bo.Y); isC {
+			if ub, ok := upperBound(bo.X, b, depth+1); ok {
+				return ub + k, true
+			}
+		}
+	}
+	return 0, false
+}
+
+// runR184: a compare-and-swap that maintains min/max is retried until it succeeds or has become unnecessary.
+func runR184(c *core.Ctx) {
+	c.Rule("R18.4", "every CompareAndSwap in the metrics package sits in a retry loop: when the swap fails the value is loaded and compared again (a single attempt loses an update when another observer wins the race with a smaller value)", 2)
+	for _, fn := range pkgFuncs(c, "metrics") {
+		loops := ssax.Loops(fn)
+		counts := map[string]int{}
+		ssax.Instrs(fn, func(ins ssa.Instruction) {
+			call, ok := ins.(*ssa.Call)
+			if !ok || !strings.HasPrefix(ssax.CalleeName(&call.Call), "sync/atomic.CompareAndSwap") {
+				return
+			}
+			_, t := ssax.AddrKeys(call.Call.Args[0])
+			key := ordinalKey(counts, "metrics."+fn.Name()+"#cas-retry:"+short(strings.TrimPrefix(t, "T:")))
+			l := ssax.InnermostLoop(loops, call.Block())
+			retried := false
+			if l != nil {
+				// from the failed swap the loop header (the re-load) is reachable inside the loop
+				for _, r := range *call.Referrers() {
+					if ifi, ok := r.(*ssa.If); ok {
+						fail := ifi.Block().Succs[1]
+						if fail == l.Header {
+							retried = true
+						} else if hit, _ := (ssax.Reach{Target: func(x ssa.Instruction) bool { return x.Block() == l.Header }, Within: l.Blocks}).FromBlock(fail); hit != nil && l.Blocks[fail] {
+							retried = true
+						}
+					}
+				}
+			}
+			c.Check(retried, "R18.4", key, c.P.Pos(call.Pos()), "the swap is retried in a loop until it succeeds or is no longer needed",
+				"a failed CompareAndSwap is not retried: when another observer swaps first with a smaller (max) or larger (min) value, this observation's value is lost and the reported extreme can lie inside the observed range")
+		})
 	}
 }
